@@ -4,6 +4,7 @@ import Driver.Util
 import Driver.FileOps
 import Driver.Id3Util
 import Driver.Ogg
+import Driver.Detect
 open Driver
 
 def dispatch (line : String) : String :=
@@ -16,6 +17,7 @@ def dispatch (line : String) : String :=
     | "bp" => bpOp a
     | "uns" => unsOp a
     | "ogg" => oggOp a
+    | "det" => detOp a
     | "ping" => "pong"
     | _ => "bad-op"
 
